@@ -201,6 +201,12 @@ impl Model for Bytes {
 }
 
 fn gen_len(r: &mut Rng, size: usize) -> usize {
+    // outermost collections are occasionally long: past the insertion-sort cut-off of the std sorts
+    // (20), a B-tree node (11), the inline capacity of the catalogue's SmallVecs and a few Vec
+    // growth steps
+    if size >= 6 && r.chance(1, 16) {
+        return 21 + r.below(44);
+    }
     match r.below(6) {
         0 => 0,
         1 => 1,
@@ -291,6 +297,19 @@ impl<T: Model + Ord + Encode + Decode> Model for BTreeSet<T> {
             }
             out.push(es.as_ssz_bytes());
         }
+        if size >= 6 {
+            // long lists over a handful of distinct elements, in no particular order
+            let distinct: Vec<T> = (0..(2 + r.below(3))).map(|_| T::gen(r, 2)).collect();
+            let n = 21 + r.below(28);
+            let mut es: Vec<T> = vec![];
+            for _ in 0..n {
+                let d = r.pick(&distinct);
+                if let Ok(c) = T::from_ssz_bytes(&d.as_ssz_bytes()) {
+                    es.push(c);
+                }
+            }
+            out.push(es.as_ssz_bytes());
+        }
         out
     }
     fn ty() -> String {
@@ -325,6 +344,22 @@ impl<K: Model + Ord + Encode + Decode, V: Model + Encode + Decode> Model for BTr
                 shuffle(r, &mut es);
             }
             out.push(es.as_ssz_bytes());
+        }
+        if size >= 6 {
+            // long entry lists over a handful of distinct keys with differing values, unsorted:
+            // "a later duplicate replaces an earlier one" must not depend on the list length
+            for _ in 0..2 {
+                let keys: Vec<K> = (0..(2 + r.below(3))).map(|_| K::gen(r, 2)).collect();
+                let n = 21 + r.below(28);
+                let mut es: Vec<(K, V)> = vec![];
+                for _ in 0..n {
+                    let d = r.pick(&keys);
+                    if let Ok(k) = K::from_ssz_bytes(&d.as_ssz_bytes()) {
+                        es.push((k, V::gen(r, 2)));
+                    }
+                }
+                out.push(es.as_ssz_bytes());
+            }
         }
         out
     }
